@@ -47,8 +47,8 @@ CSpec == CInit /\ [][CNext]_cvars
    consulted arguments is C14; a panic is C08 (and C14) *)
 Conforms ==
   IF ~G[i].expanded
-  THEN Bad([prop |-> "C14", also |-> <<"C04">>, kind |-> "unbounded", comp |-> Comp, access |-> G[i].access])
-  ELSE ReportAll({ a \in 1..NA : G[i].out[a] # SOut(a) \/ G[i].q[a] # SQuery(a) },
+  THEN BadB([prop |-> "C14", also |-> <<"C04">>, kind |-> "unbounded", comp |-> Comp, access |-> G[i].access])
+  ELSE ReportAllB({ a \in 1..NA : G[i].out[a] # SOut(a) \/ G[i].q[a] # SQuery(a) },
          LAMBDA a : [prop |-> IF G[i].out[a][1] = "panic" THEN "C08" ELSE "C14", also |-> <<"C14">>,
                      kind |-> "event-io", comp |-> Comp, access |-> G[i].access, input |-> Alpha[a],
                      ctx |-> <<mods, mode, layout>>,
@@ -59,12 +59,12 @@ Conforms ==
 ObsMatches ==
   (G[i].obs # <<>> /\ G[i].obs[1] >= 0) =>
      ( (G[i].obs[1] = mods /\ G[i].obs[2] = mode)
-       \/ Bad([prop |-> "C04", kind |-> "getter", comp |-> Comp, access |-> G[i].access,
+       \/ BadB([prop |-> "C04", kind |-> "getter", comp |-> Comp, access |-> G[i].access,
                ctx |-> <<mods, mode, layout>>, observed |-> G[i].obs, expected |-> <<mods, mode>>]) )
 ModeMatches ==
   (G[i].obs # <<>> /\ G[i].obs[1] < 0) =>
      ( G[i].obs[2] = mode
-       \/ Bad([prop |-> "C14", kind |-> "getter", comp |-> Comp, access |-> G[i].access,
+       \/ BadB([prop |-> "C14", kind |-> "getter", comp |-> Comp, access |-> G[i].access,
                ctx |-> <<mods, mode, layout>>, observed |-> G[i].obs, expected |-> <<-1, mode>>]) )
 
 (* C04 through what the layout is shown: in every product state, pressing a plain key shows the
@@ -72,7 +72,7 @@ ModeMatches ==
    mismatch is attributed to C04 when only the modifier argument differs *)
 ModsShown ==
   G[i].expanded =>
-  ReportAll({ a \in 1..NA : /\ G[i].q[a][1] = "q" /\ SQuery(a)[1] = "q" /\ G[i].q[a][4] # SQuery(a)[4] },
+  ReportAllB({ a \in 1..NA : /\ G[i].q[a][1] = "q" /\ SQuery(a)[1] = "q" /\ G[i].q[a][4] # SQuery(a)[4] },
     LAMBDA a : [prop |-> "C04", kind |-> "mods-shown", comp |-> Comp, access |-> G[i].access,
                 input |-> Alpha[a], ctx |-> <<mods, mode, layout>>,
                 observed |-> G[i].q[a][4], expected |-> SQuery(a)[4]])
